@@ -299,6 +299,44 @@ def _build_patches():
         def __getattr__(self, name):
             return getattr(_io, name)
 
+    import mmap as _mmap
+
+    class _SimMap(bytes):
+        """A read-only memory map of a simulated file: a snapshot of its bytes at mapping time (what a private read-only
+        mapping of a file nobody else writes during the scan amounts to; the scan runs under the library lock)."""
+
+        def close(self):
+            return None
+
+        def size(self):
+            return len(self)
+
+        def __enter__(self):
+            return self
+
+        def __exit__(self, *a):
+            return False
+
+    class _MmapProxy:
+        def __getattr__(self, name):
+            return getattr(_mmap, name)
+
+        @staticmethod
+        def mmap(fileno, length, *a, **kw):
+            k, f = _sim_fd(fileno)
+            if f is None:
+                return _mmap.mmap(fileno, length, *a, **kw)
+            access = kw.get("access", a[2] if len(a) > 2 else None)
+            prot = kw.get("prot", a[1] if len(a) > 1 else None)
+            if access not in (None, _mmap.ACCESS_READ) or (access is None and prot not in (_mmap.PROT_READ,)):
+                raise K.HarnessError("SimFS supports read-only memory maps only")
+            data = bytes(k.files.get(f.path, b""))
+            k.sys_fstat(f)      # (mapping observes the file: a yield point like any other look at it)
+            if length == 0 and not data:
+                raise ValueError("cannot mmap an empty file")
+            return _SimMap(data if length == 0 else data[:length])
+
+    mmap_proxy = _MmapProxy()
     io_proxy = _IoProxy()
     storage_mods = (molli.storage.ukvfile, molli.storage.backends, molli.storage.collection, molli.chem.library)
     return [
@@ -314,7 +352,7 @@ def _build_patches():
         (molli.chem.library, "Path", K.SimPath),
         # the lock name is derived from the RESOLVED path: resolution has to see the simulated symbolic links too
         (molli._aux.lock, "Path", K.SimPath),
-    ] + [(m_, "open", K.sim_open) for m_ in storage_mods] + [(m_, "io", io_proxy) for m_ in storage_mods if "io" in vars(m_)] + [
+    ] + [(m_, "open", K.sim_open) for m_ in storage_mods] + [(m_, "io", io_proxy) for m_ in storage_mods if "io" in vars(m_)] + [(m_, "mmap", mmap_proxy) for m_ in storage_mods if "mmap" in vars(m_)] + [
         (molli.storage.backends, "InterProcessReaderWriterLock", SimRWLock),
         (molli.storage.backends, "atexit", SimAtexit),
         (fasteners.process_lock, "_interprocess_reader_writer_mechanism", SimLockMech),
